@@ -195,7 +195,7 @@ def run_scenario(task):
             obs = env.obligations
             if scn.twin:
                 # reachability witness: the path reached its end with a satisfiable path condition
-                if ctx.check() == z3.sat:
+                if ctx.check(exact=True, timeout_ms=20000) == z3.sat:
                     res['twin_ok'] = True
                 return
             if not obs:
@@ -230,54 +230,73 @@ def run_scenario(task):
                         res['discharged'] += 1
                         proved.add(key)
                         continue
-                    # stage B: with the withheld definitions and the stub contracts
+                    # candidate counterexample of the abstracted formula.  First try to confirm it cheaply: a model in
+                    # generic position (inputs pairwise distinct and away from 0, 1, -1) is replayed on the real library
+                    res['candidates'] += 1
+                    not_proved.add(o.label)
+                    reals_ = [v for v in ctx.vars.values() if v.sort() == core.R]
+                    generic = z3.Distinct(reals_ + [z3.RealVal(0), z3.RealVal(1), z3.RealVal(-1)]) if reals_ else None
+                    models = []
+                    for full in (True, False):
+                        kw = {} if full else dict(npc=npc, nas=nas)
+                        if generic is not None and ctx.check(z3.Not(c), generic, timeout_ms=10000, **kw) == z3.sat:
+                            models.append(ctx.last.model())
+                            break
+                        if ctx.check(z3.Not(c), timeout_ms=10000, **kw) == z3.sat:
+                            models.append(ctx.last.model())
+                            break
+                    handled = False
+
+                    def attempt(model):
+                        level, rec = try_replay(ctx, env, o, model)
+                        if level is None:
+                            return False
+                        kf = o.kf if (o.kf and o.kf in known) else None
+                        if kf:
+                            ra = ctx.check(z3.Not(_b(o.alt)), npc=npc, nas=nas) if o.alt is not None else z3.unsat
+                            if ra != z3.unsat:
+                                ra = ctx.check(z3.Not(_b(o.alt)), defs=True, timeout_ms=20000, npc=npc, nas=nas)
+                            if ra == z3.unsat:
+                                res['known'].append(dict(kf=kf, label=o.label))
+                                return True
+                            rec['note'] = 'deviates from the listed finding %s as well' % kf
+                        state['nviol'] += 1
+                        rec['path'] = _save_replay(pid, sname, o.label, rec, state['nviol'])
+                        res['violations'].append(dict(label=o.label, level=level, replay=rec['path'],
+                                                      crash=rec.get('crash')))
+                        return True
+                    for mdl in models:
+                        if attempt(mdl):
+                            handled = True
+                            break
+                    if handled:
+                        continue
+                    # stage B: the real terms, with the withheld definitions and the stub contracts
                     extra = list(npx.inv_contracts(ctx))
                     rb = ctx.check(z3.Not(c), *extra, defs=True, timeout_ms=20000, npc=npc, nas=nas)
                     if rb == z3.unsat:
                         res['discharged'] += 1
                         res['discharged_defs'] += 1
+                        res['candidates'] -= 1
+                        not_proved.discard(o.label)
                         proved.add(key)
                         continue
-                    # prefer a model of the whole path (so that the replay follows this very path)
-                    rf = ctx.check(z3.Not(c), *(extra if rb == z3.sat else []), defs=(rb == z3.sat), timeout_ms=20000)
-                    full = rf == z3.sat
-                    if not full:
-                        rf = ctx.check(z3.Not(c), *(extra if rb == z3.sat else []), defs=(rb == z3.sat),
-                                       timeout_ms=20000, npc=npc, nas=nas)
-                    model = ctx.last.model() if rf == z3.sat else None
-                    res['candidates'] += 1
-                    not_proved.add(o.label)
-                    handled = False
                     tries = 0
+                    model = ctx.last.model() if rb == z3.sat else None
                     while model is not None and tries < 3 and not handled:
                         tries += 1
-                        level, rec = try_replay(ctx, env, o, model)
-                        if level is not None:
+                        if attempt(model):
                             handled = True
-                            kf = o.kf if (o.kf and o.kf in known) else None
-                            if kf:
-                                ra = ctx.check(z3.Not(_b(o.alt)), npc=npc, nas=nas) if o.alt is not None else z3.unsat
-                                if ra == z3.unsat:
-                                    res['known'].append(dict(kf=kf, label=o.label))
-                                    break
-                                rec['note'] = 'deviates from the listed finding %s as well' % kf
-                            state['nviol'] += 1
-                            rec['path'] = _save_replay(pid, sname, o.label, rec, state['nviol'])
-                            res['violations'].append(dict(label=o.label, level=level, replay=rec['path'],
-                                                          crash=rec.get('crash')))
                             break
-                        # not reproduced: ask for another model (different input values)
                         block = z3.Or([v != model.eval(v, model_completion=True) for v in ctx.vars.values()]) \
                             if ctx.vars else z3.BoolVal(False)
-                        kw = {} if full else dict(npc=npc, nas=nas)
-                        rn = ctx.check(z3.Not(c), block, *(extra if rb == z3.sat else []), defs=(rb == z3.sat),
-                                       timeout_ms=20000, **kw)
+                        rn = ctx.check(z3.Not(c), block, *extra, defs=True, timeout_ms=20000, npc=npc, nas=nas)
                         model = ctx.last.model() if rn == z3.sat else None
                     if not handled:
                         res['inconclusive'].append(dict(
                             label=o.label, verdict=str(rb),
                             reason='candidate counterexample did not reproduce on the real library'
-                            if rf == z3.sat else 'solver returned unknown'))
+                            if (models or rb == z3.sat) else 'solver returned unknown'))
                 if state['nviol'] >= 3 or len(res['inconclusive']) >= 5:
                     raise core.Budget('stopping scenario after repeated failures')
             # samples + translation validation
@@ -292,7 +311,7 @@ def run_scenario(task):
 
         def validate(ctx, env, not_proved=()):
             numeric_uf = any(k in str(d.name()) for d in _decls(ctx) for k in ('fn_', 'inv'))
-            r = ctx.check()
+            r = ctx.check(exact=True, timeout_ms=5000)
             if r != z3.sat:
                 res['tv_skipped'] += 1
                 return
